@@ -326,58 +326,61 @@ Definition set_has_enter (st : fstate) (b : bool) : fstate :=
       (s_identMap st) (s_override st) (s_node st) (s_classNodes st) (s_file st) b.
 
 (* one compilation unit: package, imports, type annotations, type declaration, members, exitBody *)
-Definition walk_unit (st0 : fstate) (u : junit) : fstate :=
+Definition unit_header (st0 : fstate) (u : junit) : fstate :=
   let n0 := s_node st0 in
-  let n1 := if u_has_pkg u then mkDs (d_node n0) (d_type n0) (u_pkg u) (d_path n0) (d_fields n0) (d_extend n0) (d_impls n0)
-                       (d_funcs n0) (d_annots n0) (d_calls n0) (d_imports n0) else n0 in
-  let st1 := mkF (s_imports st0 ++ u_imports u) (s_clzs st0) (if u_has_pkg u then u_pkg u else s_pkg st0) (s_clz st0) (s_fields st0) (s_type st0)
-                 (s_mapFields st0) (s_localVars st0) (s_formals st0) (s_clzExtend st0) (s_method st0)
-                 (s_methodMap st0) (s_methodQueue st0) (s_identMap st0) (s_override st0)
-                 (mkDs (d_node n1) (d_type n1) (d_pkg n1) (d_path n1) (d_fields n1) (d_extend n1) (d_impls n1)
-                       (d_funcs n1) (d_annots n1) (d_calls n1) (d_imports n1 ++ u_imports u))
-                 (s_classNodes st0) (s_file st0) (s_hasEnterClass st0) in
-  (* type-level annotations *)
-  let st2 :=
-    fold_left (fun s a =>
-                 let s1 := set_override s (String.eqb (an_name a) "Override") in
-                 if s_hasEnterClass s1 then s1 else
-                 let n := s_node s1 in
-                 set_node s1 (mkDs (d_node n) (d_type n) (d_pkg n) (d_path n) (d_fields n) (d_extend n) (d_impls n)
-                                   (d_funcs n) (d_annots n ++ [a]) (d_calls n) (d_imports n)))
-              (u_annots u) st1 in
-  (* EnterClassDeclaration / EnterInterfaceDeclaration *)
-  let st3 :=
-    if String.eqb (u_kind u) "class" then
-      let ty := if String.eqb (d_node (s_node st2)) "" then "Class" else "InnerStructures" in
-      let sa := mkF (s_imports st2) (s_clzs st2) (s_pkg st2) (u_name u) (s_fields st2) ty (s_mapFields st2)
-                    (s_localVars st2) (s_formals st2) (match u_extends u with e :: _ => e | [] => "" end)
-                    (s_method st2) (s_methodMap st2) (s_methodQueue st2) (s_identMap st2) (s_override st2)
-                    (s_node st2) (s_classNodes st2) (s_file st2) true in
-      let n := s_node sa in
-      let ext := match u_extends u with e :: _ => build_extend sa e | [] => d_extend n end in
-      let impls := (d_impls n ++ map (fun t => fst (warp_target_full_type sa t)) (u_implements u))%list in
-      set_node sa (mkDs (u_name u) ty (d_pkg n) (d_path n) (d_fields n) ext impls (d_funcs n) (d_annots n)
-                        (d_calls n) (d_imports n))
-    else
-      let sa := mkF (s_imports st2) (s_clzs st2) (s_pkg st2) (s_clz st2) (s_fields st2) "Interface" (s_mapFields st2)
-                    (s_localVars st2) (s_formals st2) (s_clzExtend st2)
-                    (s_method st2) (s_methodMap st2) (s_methodQueue st2) (s_identMap st2) (s_override st2)
-                    (s_node st2) (s_classNodes st2) (s_file st2) true in
-      let n := s_node sa in
-      let ext := fold_left (fun _ t => build_extend sa t) (u_extends u) (d_extend n) in
-      set_node sa (mkDs (u_name u) "Interface" (d_pkg n) (d_path n) (d_fields n) ext (d_impls n) (d_funcs n)
-                        (d_annots n) (d_calls n) (d_imports n)) in
-  let st4 := fold_left member_step (u_members u) st3 in
-  (* exitBody *)
-  let st5 := set_has_enter st4 false in
-  let n := s_node st5 in
-  let n' := mkDs (d_node n) (d_type n) (d_pkg n) (s_file st5) (s_fields st5) (d_extend n) (d_impls n)
-                 (map snd (s_methodMap st5)) (d_annots n) (d_calls n) (d_imports n) in
-  let st6 := mkF (s_imports st5) (s_clzs st5) (s_pkg st5) (s_clz st5) (s_fields st5) (s_type st5) (s_mapFields st5)
-                 (s_localVars st5) (s_formals st5) (s_clzExtend st5) (s_method st5) (s_methodMap st5)
-                 (s_methodQueue st5) (s_identMap st5) (s_override st5) empty_ds (s_classNodes st5 ++ [n'])
-                 (s_file st5) false in
-  init_class st6.
+  let pkg := if u_has_pkg u then u_pkg u else d_pkg n0 in
+  mkF (s_imports st0 ++ u_imports u) (s_clzs st0) (if u_has_pkg u then u_pkg u else s_pkg st0) (s_clz st0)
+      (s_fields st0) (s_type st0) (s_mapFields st0) (s_localVars st0) (s_formals st0) (s_clzExtend st0)
+      (s_method st0) (s_methodMap st0) (s_methodQueue st0) (s_identMap st0) (s_override st0)
+      (mkDs (d_node n0) (d_type n0) pkg (d_path n0) (d_fields n0) (d_extend n0) (d_impls n0)
+            (d_funcs n0) (d_annots n0) (d_calls n0) (d_imports n0 ++ u_imports u))
+      (s_classNodes st0) (s_file st0) (s_hasEnterClass st0).
+
+Definition add_node_annot (n : ds) (a : annot) : ds :=
+  mkDs (d_node n) (d_type n) (d_pkg n) (d_path n) (d_fields n) (d_extend n) (d_impls n)
+       (d_funcs n) (d_annots n ++ [a]) (d_calls n) (d_imports n).
+
+(* EnterAnnotation for the annotations written before the type declaration *)
+Definition type_annot (s : fstate) (a : annot) : fstate :=
+  let s1 := set_override s (String.eqb (an_name a) "Override") in
+  if s_hasEnterClass s1 then s1 else set_node s1 (add_node_annot (s_node s1) a).
+
+(* EnterClassDeclaration / EnterInterfaceDeclaration *)
+Definition enter_type (st2 : fstate) (u : junit) : fstate :=
+  if String.eqb (u_kind u) "class" then
+    let ty := if String.eqb (d_node (s_node st2)) "" then "Class" else "InnerStructures" in
+    let sa := mkF (s_imports st2) (s_clzs st2) (s_pkg st2) (u_name u) (s_fields st2) ty (s_mapFields st2)
+                  (s_localVars st2) (s_formals st2) (match u_extends u with e :: _ => e | [] => "" end)
+                  (s_method st2) (s_methodMap st2) (s_methodQueue st2) (s_identMap st2) (s_override st2)
+                  (s_node st2) (s_classNodes st2) (s_file st2) true in
+    let n := s_node sa in
+    let ext := match u_extends u with e :: _ => build_extend sa e | [] => d_extend n end in
+    let impls := (d_impls n ++ map (fun t => fst (warp_target_full_type sa t)) (u_implements u))%list in
+    set_node sa (mkDs (u_name u) ty (d_pkg n) (d_path n) (d_fields n) ext impls (d_funcs n) (d_annots n)
+                      (d_calls n) (d_imports n))
+  else
+    let sa := mkF (s_imports st2) (s_clzs st2) (s_pkg st2) (s_clz st2) (s_fields st2) "Interface" (s_mapFields st2)
+                  (s_localVars st2) (s_formals st2) (s_clzExtend st2)
+                  (s_method st2) (s_methodMap st2) (s_methodQueue st2) (s_identMap st2) (s_override st2)
+                  (s_node st2) (s_classNodes st2) (s_file st2) true in
+    let n := s_node sa in
+    let ext := fold_left (fun _ t => build_extend sa t) (u_extends u) (d_extend n) in
+    set_node sa (mkDs (u_name u) "Interface" (d_pkg n) (d_path n) (d_fields n) ext (d_impls n) (d_funcs n)
+                      (d_annots n) (d_calls n) (d_imports n)).
+
+(* ExitClassBody / ExitInterfaceBody -> exitBody (top-level type, no enclosing class) *)
+Definition exit_body (st4 : fstate) : fstate :=
+  let n := s_node st4 in
+  let n' := mkDs (d_node n) (d_type n) (d_pkg n) (s_file st4) (s_fields st4) (d_extend n) (d_impls n)
+                 (map snd (s_methodMap st4)) (d_annots n) (d_calls n) (d_imports n) in
+  init_class (mkF (s_imports st4) (s_clzs st4) (s_pkg st4) (s_clz st4) (s_fields st4) (s_type st4) (s_mapFields st4)
+                  (s_localVars st4) (s_formals st4) (s_clzExtend st4) (s_method st4) (s_methodMap st4)
+                  (s_methodQueue st4) (s_identMap st4) (s_override st4) empty_ds (s_classNodes st4 ++ [n'])
+                  (s_file st4) false).
+
+Definition walk_unit (st0 : fstate) (u : junit) : fstate :=
+  exit_body (fold_left member_step (u_members u)
+                       (enter_type (fold_left type_annot (u_annots u) (unit_header st0 u)) u)).
 
 (* JavaFullApp.AnalysisFiles: one listener per file, results appended *)
 Definition analysis_files (st : fstate) (idents : list string) (units : list junit) : fstate * list ds :=
